@@ -2,6 +2,7 @@
 package c14
 
 import (
+	"github.com/ucan-wg/go-ucan/pkg/policy/literal"
 	"runtime"
 	"sync"
 	"fmt"
@@ -158,6 +159,41 @@ func runStr(c *h.Ctx, cs StrCase) {
 			c.Fail("C14/selector/grammar/rejects-derivable", "Parse(%q) failed (%v), but the text is derivable from the selector grammar as %+v", cs.S, err, refSel)
 		}
 		return
+	}
+	// the same text through every CONSTRUCTOR that takes a selector: a policy can be built from it exactly when it is
+	// a selector (the constructors are a second front door to the same parser; what one refuses the other refuses)
+	one := literal.Int(1)
+	inner := policy.Equal(".", one)
+	ctors := map[string]policy.Constructor{
+		"Equal": policy.Equal(cs.S, one), "GreaterThan": policy.GreaterThan(cs.S, one), "GreaterThanOrEqual": policy.GreaterThanOrEqual(cs.S, one),
+		"LessThan": policy.LessThan(cs.S, one), "LessThanOrEqual": policy.LessThanOrEqual(cs.S, one), "Like": policy.Like(cs.S, "a*"),
+		"All": policy.All(cs.S, inner), "Any": policy.Any(cs.S, inner),
+		"Not(Equal)": policy.Not(policy.Equal(cs.S, one)), "And(Any)": policy.And(inner, policy.Any(cs.S, inner)), "Or(All)": policy.Or(policy.All(cs.S, inner)),
+		"All(.,Like)": policy.All(".", policy.Like(cs.S, "x")),
+	}
+	for name, ct := range ctors {
+		var cerr error
+		var built policy.Policy
+		if pn, v, _ := h.Try(func() { built, cerr = policy.Construct(ct) }); pn {
+			c.Fail("C14/constructor/panic/"+name, "policy.Construct(%s(%q, ...)) panicked: %v", name, cs.S, v)
+			return
+		}
+		if (cerr == nil) != refOK {
+			c.Fail("C14/constructor/selector-acceptance/"+name, "policy.%s with selector text %q: constructed=%v, but the text is derivable from the selector grammar: %v (selector.Parse: %v)", name, cs.S, cerr == nil, refOK, err)
+			return
+		}
+		if cerr == nil {
+			// and what was built can be written and read back
+			n, werr := built.ToIPLD()
+			if werr != nil {
+				c.Fail("C14/constructor/not-writable/"+name, "policy built by %s(%q) cannot be written: %v", name, cs.S, werr)
+				return
+			}
+			if _, rerr := policy.FromIPLD(n); rerr != nil {
+				c.Fail("C14/constructor/roundtrip/"+name, "policy built by %s(%q) is written as %s, which FromIPLD refuses: %v", name, cs.S, val.FromNode(n), rerr)
+				return
+			}
+		}
 	}
 	if err == nil {
 		if why := segmentsMatchRef(p, refSel); why != "" {
